@@ -11,6 +11,12 @@ CHECKS = {
                      "one-piece processing and every global index with the chunk map. Bounded-exhaustive, not a proof for longer signals.",
                 note="Small-scope hypothesis (closing rules see only order relations); rainflow_ext rebuilt from extension.pyx; numpy trusted.",
                 ref="3 C01"),
+    "C02": dict(cat="exploration", tech="exhaustive enumeration of all signals over a small alphabet against executable counting definitions",
+                text="Every float signal of length 2..n over a 5-7 letter integer alphabet (all ties, plateaus, repeated extremes of that scope) is "
+                     "run through the three real detectors and compared with list-based reference definitions of the four-point and HCM rules, "
+                     "including turning-point accounting and index->value consistency. Complete for the stated scope only.",
+                note="Reference definitions in mc/refs/rainflow.py are trusted (two independent four-point codings cross-checked on the whole space).",
+                ref="3 C02"),
 }
 
 NOT_APPLICABLE = []
